@@ -1,10 +1,10 @@
 SPECIFICATION Spec
 CONSTANTS
-  MaxOps = 2
+  MaxOps = 4
   Groups = {"list", "listns", "tree", "arr", "mat", "ds"}
   Big = FALSE
-  Focus = ""
-  Wide = FALSE
+  Focus = "L"
+  Wide = TRUE
   ShipDsAdd = FALSE
   ShipMatPartial = FALSE
   ShipCloneDrop = FALSE
